@@ -565,7 +565,13 @@ def shard(ctx):
             if rng.random() < 0.5:
                 case['params']['quiet'] = True
         elif op == 'filter_by_length':
-            case['spec'] = base_tree(rng, gen.Pools())
+            # the length is the number of terminals, whatever they are:
+            # punctuation and traces count
+            if rng.random() < 0.4:
+                case['spec'] = trace_tree(rng)[0]
+            else:
+                case['spec'] = base_tree(rng, gen.Pools(
+                    p_punct=rng.choice([0, 0.3])))
             case['params'] = {'filteroperator': rng.choice(['lt', 'gt', 'eq']),
                               'filtervalue': rng.randint(0, 12)}
         else:
